@@ -118,7 +118,7 @@ def run(rep, ctx):
     os.makedirs(wd)
     for i, p in enumerate(progs):
         open(os.path.join(wd, '%05d.sol' % i), 'w', encoding='utf-8', newline='').write(p['src'])
-    rc, out = vlib.sh([ctx.harness, 'prog', wd], timeout=3000)
+    rc, out = vlib.run_prog(ctx.harness, wd)
     if rc != 0:
         raise vlib.BuildError('harness failed: ' + out[-1000:])
     res = [vlib.parse_res(open(os.path.join(wd, '%05d.res' % i), encoding='utf-8').read()) for i in range(len(progs))]
